@@ -42,6 +42,11 @@ impl WeightedMean {
         // https://en.wikipedia.org/wiki/Algorithms_for_calculating_variance
         // and
         // http://people.ds.cam.ac.uk/fanf2/hermes/doc/antiforgery/stats.pdf.
+        if weight == 0. {
+            // An observation without weight does not change the weighted mean.
+            // (Also avoids 0/0 when no weight has been seen yet.)
+            return;
+        }
         self.weight_sum += weight;
 
         let prev_avg = self.weighted_avg;
